@@ -97,8 +97,41 @@ def to_scale(spec):
                  Tuning(spec['tuning'], spec['ratio'], name=spec['kind']))
 
 
+class Unencodable:
+    """A value no OSC message can carry (fault histories)."""
+
+    def __repr__(self):
+        return 'Unencodable()'
+
+
+def _fault_value(v):
+    """The real value of a {'fn': ...} / {'bad': ...} spec."""
+    if me.is_fn_value(v):
+        key, mul, add = v['key'], v['mul'], v['add']
+        if v['fn'] == 'item':
+            return lambda e: e[key] * mul + add
+        return lambda e: e(key) * mul + add
+    b = v['bad']
+    if b == 'fn-raises':
+        exc = {'ZeroDivisionError': ZeroDivisionError, 'ValueError': ValueError,
+               'LookupError': LookupError, 'RuntimeError': RuntimeError}[v['exc']]
+
+        def fn(e):
+            raise exc('c14 injected fault')
+        return fn
+    if b.startswith('str-'):
+        return b[4:]
+    if b.startswith('int-'):
+        return int(b[4:])
+    return {'object': Unencodable, 'complex': lambda: 1j,
+            'set': lambda: {1, 2}, 'bytes': lambda: b'ab',
+            'bigint': lambda: 2 ** 40, 'none': lambda: None}[b]()
+
+
 def to_value(v, groups=None):
     from sc3.seq.event import Rest
+    if me.is_fn_value(v) or me.is_bad_value(v):
+        return _fault_value(v)
     if me.is_rest_value(v):
         return Rest(v['rest'])
     if isinstance(v, str) and v == 'groupobj':
@@ -112,7 +145,9 @@ def to_event_dict(spec, groups=None):
     out = {}
     for k, v in spec.items():
         if k == 'scale':
-            if v is not None:
+            if me.is_bad_value(v):
+                out[k] = _fault_value(v)
+            elif v is not None:
                 out[k] = to_scale(v)
         elif k == 'group':
             out[k] = to_value(v, groups)
@@ -210,7 +245,71 @@ def wanted_lookups(ev, res):
     return wanted
 
 
+def amp_reverse_lookups(ev, res):
+    """[(key, expected, slack)] for the `db` and `velocity` look-ups of an
+    event (the amplitude keys are three units of one quantity: amp =
+    dbamp(db) = velocity / 127, an explicit key first): db = 20 log10(amp)
+    (1e-9), velocity = 127 amp to less than one MIDI step (the rounding of a
+    velocity is not documented).  None for rests and for db together with
+    velocity without amp (no documented precedence)."""
+    import math
+    if res.rest or ('db' in ev and 'velocity' in ev and 'amp' not in ev):
+        return []
+    out = []
+    if 'db' in ev:
+        out.append(('db', me.num(ev['db']), 0.0))
+    else:
+        out.append(('db', 20.0 * math.log10(res.amp) if res.amp > 0
+                    else -me.INF, 0.0))
+    if 'velocity' in ev:
+        out.append(('velocity', me.num(ev['velocity']), 0.0))
+    else:
+        out.append(('velocity', 127.0 * res.amp, 1.0))
+    return out
+
+
 PEEK_KEYS = ('freq', 'midinote', 'amp', 'sustain', 'delta')
+
+# keys of the documented chains: after a play - failed or not - an event
+# defines none of them unless the user gave it
+CHAIN_KEYS = {'freq', 'midinote', 'note', 'degree', 'mtranspose', 'gtranspose',
+              'root', 'octave', 'scale', 'ctranspose', 'harmonic', 'detune',
+              'amp', 'db', 'velocity', 'dur', 'stretch', 'legato', 'sustain',
+              'delta'}
+
+
+def failure_phase(x):
+    """Where a play() failed (evidence only)."""
+    from vf.common import tb_sites
+    sites = tb_sites(x)
+    names = [f for _, f in sites]
+    if '_get_msg_params' in names or '_default_msg_params' in names:
+        return 'control-list'
+    if '_detuned_freq' in names:
+        return 'pitch-chain'
+    if any(f in ('_as_osc_arg_list', 'node_param') for f in names):
+        return 'message-encoder'
+    if any(m.startswith(('_oscinterface', '_osclib', 'netaddr'))
+           for m, _ in sites):
+        return 'bundle-builder'
+    return 'after-the-control-list'
+
+
+def leftover_state(e, spec):
+    """What a play left in the event object `e` whose user keys are `spec`
+    (diagnosis of a later difference; not an oracle): chain keys the user
+    never gave, number valued user keys that changed, a stored control list
+    although the event never played."""
+    left = sorted(k for k in e if k in CHAIN_KEYS and k not in spec)
+    changed = []
+    for k, v in spec.items():
+        if isinstance(v, bool) or not isinstance(v, (int, float)):
+            continue
+        if k not in e or type(e[k]) is not type(v) or e[k] != v:
+            changed.append(k)
+    return {'left': left, 'changed': sorted(changed),
+            'stale_list': 'msg_params' in e
+            and not e.get('is_playing', False)}
 
 
 def to_valpattern(vs):
@@ -225,6 +324,15 @@ def to_valpattern(vs):
         return Pser([to_valpattern(x) for x in vs[1]], vs[2], vs[3])
     if kind == 'series':
         return Pseries(vs[1], vs[2], vs[3])
+    if kind == 'key':
+        from sc3.seq.patterns.eventpatterns import Pkey
+        _, name, length, mul, add = vs
+        pk = Pkey(name) if length is None else Pkey(name, length)
+        if mul != 1:
+            pk = pk * mul
+        if add != 0:
+            pk = pk + add
+        return pk
     raise ValueError(vs)
 
 
@@ -256,7 +364,20 @@ def to_pattern(p, shared=None, built=None):
     if kind == 'ppar':
         return Ppar(*[rec(c) for c in p[1]])
     if kind == 'pchain':
+        how = p[3] if len(p) > 3 else 'ctor'
+        if how in ('flat', 'flat-chain') and p[2][0] == 'pchain' \
+                and (len(p[2]) == 3 or p[2][3] == 'ctor'):
+            a, b1, b2 = rec(p[1]), rec(p[2][1]), rec(p[2][2])
+            return Pchain(a, b1, b2) if how == 'flat' else \
+                Pchain(a, b1).chain(b2)
+        if how in ('chain', 'flat-chain'):
+            return Pchain(rec(p[1])).chain(rec(p[2]))
         return Pchain(rec(p[1]), rec(p[2]))
+    if kind == 'pevent':
+        from sc3.seq.patterns.eventpatterns import Pevent
+        from sc3.seq.event import event
+        d = to_event_dict(p[1])
+        return Pevent(rec(p[2]), event(d) if p[3] == 'event' else d)
     if kind == 'pdur':
         return Pdur(p[1], rec(p[2]))
     if kind == 'pdelta':
@@ -345,7 +466,12 @@ def run_play_program(prog, groups):
                     # look-ups before the edit (values not compared here: the
                     # previous play was)
                     for key in PEEK_KEYS:
-                        e(key)
+                        try:
+                            e(key)
+                        except Exception:       # noqa
+                            if not prog.get('fault'):
+                                raise
+                            # (the object may be broken at this point)
                 mut = step.get('mut', 'update/pop')
                 if mut == 'clear-update':
                     apply_mutation(e, {'m': mut, 'set': step['event']}, groups)
@@ -356,6 +482,21 @@ def run_play_program(prog, groups):
                 if step.get('peek_after'):
                     cap.extra.setdefault('peeks', []).append(
                         (len(times) - 1, {key: e(key) for key in PEEK_KEYS}))
+            if step.get('fails'):
+                # the event has keys play() cannot resolve / encode: whether
+                # and where it raises is the library's business; what the
+                # OBJECT holds afterwards is recorded for the diagnosis
+                info = {'step': len(times) - 1, 'tag': step['event']['tag'],
+                        'kinds': step['fails'], 'raised': None,
+                        'first_play': not step['prev_tags']}
+                try:
+                    objs[k].play()
+                except Exception as x:      # noqa
+                    info['raised'] = type(x).__name__
+                    info['phase'] = failure_phase(x)
+                info.update(leftover_state(objs[k], step['event']))
+                cap.extra.setdefault('faults', []).append(info)
+                return
             objs[k].play()
             return
         d = to_event_dict(step['event'], groups)
@@ -476,6 +617,108 @@ def _run_plays(case, pat, proto):
     Routine(body).play(SystemClock)
 
 
+def _clock_for(name):
+    from sc3.base.clock import SystemClock, TempoClock
+    return None if name == 'default' else SystemClock if name == 'system' \
+        else TempoClock(1)
+
+
+def _proto_for(case):
+    from sc3.seq.event import event
+    return event({'c14proto': 1}) if case['proto'] == 'event' else None
+
+
+def run_control_case(case):
+    """One player under a history of control calls (all from one routine on
+    SystemClock, at the times of the case)."""
+    from sc3.base.stream import Routine
+    from sc3.base.clock import SystemClock
+    from sc3.synth.server import Server
+    cap = Capture()
+    s = Server.default
+    old = s.latency
+    s.latency = case['latency']
+    pat = to_pattern(case['pattern'], case.get('shared'))
+    proto = _proto_for(case)
+    errors = []
+
+    def body():
+        now = 0.0
+        if case['at'] > 0:
+            yield case['at']
+            now = case['at']
+        clock = _clock_for(case['clock'])
+        pl = pat.play(clock, 0, proto=proto)
+        for a in case['controls']:
+            yield a['at'] - now
+            now = a['at']
+            do = a['do']
+            try:
+                # (quant 0 as in every case: the default grid of a tempo
+                # clock is kept out)
+                if do == 'reset-play':
+                    pl.reset()
+                    pl.play(clock, 0)
+                elif do == 'play-reset':
+                    pl.play(clock, 0, reset=True)
+                elif do == 'play':
+                    pl.play(clock, 0)
+                elif do == 'resume':
+                    pl.resume(None if a.get('own_clock', True) else clock, 0)
+                else:
+                    getattr(pl, do)()       # mute unmute pause resume reset stop
+            except Exception as e:      # noqa
+                errors.append((do, e))
+                return
+    try:
+        Routine(body).play(SystemClock)
+        collect(cap)
+        if errors and cap.raised is None:
+            cap.raised = errors[0][1]
+            cap.extra['raised_in'] = errors[0][0]
+    finally:
+        s.latency = old
+    return cap
+
+
+def run_pattern_fault_case(case):
+    """Several players over two pattern objects (x: one of its events fails
+    when it is played; y: sound) and one prototype event object."""
+    import copy
+    from sc3.base.stream import Routine
+    from sc3.base.clock import SystemClock
+    from sc3.synth.server import Server
+    cap = Capture()
+    s = Server.default
+    old = s.latency
+    s.latency = case['latency']
+    shared = copy.deepcopy(case['shared'])
+    f = case['fault']
+    leaf = shared['x']
+    while leaf[0] != 'pbind':
+        leaf = leaf[2]
+    leaf[1][f['key']][1][f['row']] = f['bad']
+    built = {}
+    pats = {k: to_pattern(['use', k], shared, built) for k in ('x', 'y')}
+    proto = _proto_for(case)
+    clock_name = case['clock']
+
+    def body():
+        now = 0.0
+        clock = _clock_for(clock_name)
+        for pl in case['plays']:
+            if pl['at'] > now:
+                yield pl['at'] - now
+                now = pl['at']
+            pats[pl['use']].play(clock, 0, proto=proto)
+    try:
+        Routine(body).play(SystemClock)
+        collect(cap)
+    finally:
+        s.latency = old
+    return cap
+
+
 # ------------------------------------------------------------------ expectations
 
 class Expect:
@@ -494,9 +737,14 @@ class Expect:
         self.rest_tags = set()
         self.group_id = None
         self.total = None    # expected elapsed time (None: not asserted)
+        self.fault_tags = set()     # tags of plays of broken events: their
+        self.fault_untagged = []    # own traffic is not decided (times of
+        #                             those on an undescribed instrument)
+        self.muted_tags = set()     # events a muted player must not send
 
 
 def expect_note(ev, t, latency, info, groups, kind='note', mono=None):
+    ev = me.effective(ev)       # function valued keys: what they return
     res = me.resolve(ev)
     inst = mono[1] if mono else ev.get('instrument', 'default')
     # a definition the library has no description of: Event help - the
@@ -524,9 +772,18 @@ def expect_program(prog, times, info, groups):
     ex = Expect()
     ex.group_id = groups['id']
     for step, t in zip(prog['steps'], times):
+        if step.get('fails'):
+            # a play of an event with keys the library cannot resolve or
+            # encode: what it sends (nothing, the /s_new without the gate-off
+            # ...) is not decided
+            ex.fault_tags.add(step['event']['tag'])
+            if step['event'].get('instrument') not in info:
+                ex.fault_untagged.append(t + prog['latency'])
+            continue
         n = expect_note(step['event'], t, prog['latency'], info, groups)
         n['prev_tags'] = step.get('prev_tags', [])
         n['op'] = step.get('op')
+        n['after_fault'] = step.get('after_fault', [])
         ex.notes.append(n)
     return ex
 
@@ -606,6 +863,86 @@ def expect_timeline(case, start, info, groups):
     return ex
 
 
+def expect_control(case, info, groups):
+    """Expectation of a player-control case, or None (an action at a
+    wake-up: not decided)."""
+    tl = me.timeline(case['pattern'])
+    c = me.controlled(tl, case['at'], case['controls'])
+    if c is None:
+        return None
+    ex = Expect()
+    ex.group_id = groups['id']
+    ex.flags = set()
+    ex.control = c
+    ex.muted = 0
+    L = case['latency']
+    for t, e, muted in c.plays:
+        if e.rest:
+            ex.rests += 1
+            if 'tag' in e.keys:
+                ex.rest_tags.add(e.keys['tag'])
+            continue
+        if muted:
+            ex.muted += 1
+            ex.muted_tags.add(e.keys['tag'])
+            continue
+        ex.notes.append(expect_note(e.keys, t, L, info, groups, e.kind,
+                                    e.mono))
+    ex.total, ex.total_upper = c.last, None
+    return ex
+
+
+def expect_pattern_fault(case, info, groups):
+    """The failing pattern's players: the events before the failing one; from
+    the failing event on nothing is decided (tags tolerated, end of the player
+    between the failure and the end of the pattern).  All other players: as
+    usual."""
+    ex = Expect()
+    ex.group_id = groups['id']
+    ex.flags = set()
+    L = case['latency']
+    ftags = set(case['fault']['tags'])
+    ex.fault_tags_any = ftags
+    lo = hi = 0.0
+    ex.failing_players = 0
+    for pl in case['plays']:
+        tl = me.timeline(case['shared'][pl['use']])
+        end = pl['at'] + tl.total
+        first = len(ex.notes)
+        for onset, e in tl.items:
+            if e.keys.get('tag') in ftags and pl['use'] == 'x':
+                if e.keys['tag'] == case['fault']['tags'][0]:
+                    ex.failing_players += 1
+                    lo = max(lo, pl['at'] + onset)
+                    hi = max(hi, end)
+                    end = None
+                continue
+            if e.rest:
+                ex.rests += 1
+                if 'tag' in e.keys:
+                    ex.rest_tags.add(e.keys['tag'])
+                continue
+            if e.kind == 'mono_set':
+                ex.sets.append({'tag': e.keys['tag'],
+                                'time': pl['at'] + onset + L,
+                                'mono': e.mono[0], 'ev': e.keys,
+                                'res': me.resolve(e.keys),
+                                'desc': info[e.mono[1]]})
+            else:
+                ex.notes.append(expect_note(e.keys, pl['at'] + onset, L, info,
+                                            groups, e.kind, e.mono))
+        monos = {n['mono'] for n in ex.notes[first:] if n['mono'] is not None}
+        for t, m_, exact in tl.releases:
+            if m_ in monos:
+                ex.releases.append({'mono': m_, 'time': pl['at'] + t + L,
+                                    'exact': exact})
+        if end is not None:
+            lo, hi = max(lo, end), max(hi, end)
+        lo, hi = max(lo, pl['at']), max(hi, pl['at'])
+    ex.total, ex.total_upper = lo, (hi if hi > lo else None)
+    return ex
+
+
 # ------------------------------------------------------------------ comparison
 
 def _pairs(args):
@@ -649,6 +986,26 @@ def compare(ex, cap, acc, mon, offgrid=False):
                 for (n, v) in pr:
                     if n == 'tag':
                         by_tag.setdefault(v, []).append(r)
+    # events of a player from its failing event on (pattern faults): their
+    # /s_new and gate-off traffic is not decided
+    for ft in getattr(ex, 'fault_tags_any', ()):
+        for r in by_tag.pop(ft, []):
+            r['used'] = True
+            for g in rows:
+                if g['addr'] == '/n_set' and g['args'][:1] == \
+                        [r['args'][1]] and g['args'][1:] == ['gate', 0]:
+                    g['used'] = True
+    # plays of broken events (fault histories): at most one /s_new per such
+    # play, and the gate-off of its node, are the failing play's own business
+    for ft in ex.fault_tags:
+        for r in by_tag.get(ft, [])[:1]:
+            r['used'] = r['fault'] = True
+            by_tag[ft].remove(r)
+            acc.count(f'{mon}_failing_play_sent_s_new')
+            for g in rows:
+                if g['addr'] == '/n_set' and g['args'][:1] == \
+                        [r['args'][1]] and g['args'][1:] == ['gate', 0]:
+                    g['used'] = True
     ids = {}
     seen_ids = set()
     # an event object that is played again: when no /s_new carries the tag the
@@ -684,9 +1041,22 @@ def compare(ex, cap, acc, mon, offgrid=False):
         if n['desc']['controls'] is None:
             # no description, hence no tag control: attributed by the name of
             # the (never described) definition and the time
-            r = next((c for c in rows if c['addr'] == '/s_new'
-                      and not c['used'] and c['args'][:1] == [n['inst']]
-                      and ttol(c['t'], n['time'])), None)
+            cands = [c for c in rows if c['addr'] == '/s_new'
+                     and not c['used'] and c['args'][:1] == [n['inst']]
+                     and ttol(c['t'], n['time'])]
+            # (several at one time: the one that carries this event's values)
+            def fits(c):
+                if c['args'][2:4] != [n['action'], n['group']]:
+                    return False
+                if _compare_controls(n, c['args'][4:], c['largs'][4:],
+                                     _NoCount(), mon, 's_new'):
+                    return False
+                offs = [g for g in rows if g['addr'] == '/n_set'
+                        and g['args'] == [c['args'][1], 'gate', 0]]
+                return not (offs and n['gate_time'] is not None
+                            and not ttol(offs[0]['t'], n['gate_time']))
+            r = next((c for c in cands if fits(c)),
+                     cands[0] if cands else None)
             if r is None:
                 bad.append(('missing-s_new/undescribed-instrument',
                             {'tag': n['tag'], 'expected_at': n['time']}))
@@ -737,6 +1107,19 @@ def compare(ex, cap, acc, mon, offgrid=False):
         if a[3] != n['group']:
             bad.append(('target-group', {'got': a[3], 'expected': n['group']}))
         bad += _compare_controls(n, a[4:], r['largs'][4:], acc, mon, 's_new')
+    # plays of broken events on an instrument without description (no tag):
+    # one /s_new at the time of the play, and its gate-off
+    for ft in ex.fault_untagged:
+        for r in rows:
+            if r['addr'] == '/s_new' and not r['used'] and ttol(r['t'], ft) \
+                    and 'tag' not in r['args'][4::2]:
+                r['used'] = True
+                acc.count(f'{mon}_failing_play_sent_s_new')
+                for g in rows:
+                    if g['addr'] == '/n_set' and g['args'][:1] == \
+                            [r['args'][1]] and g['args'][1:] == ['gate', 0]:
+                        g['used'] = True
+                break
     # gate-off / release / n_set traffic
     monos = {n['mono']: n for n in ex.notes if n['mono'] is not None}
     for n in ex.notes:
@@ -836,6 +1219,9 @@ def compare(ex, cap, acc, mon, offgrid=False):
                 bad.append(('rest-sent-traffic', {
                     't': r['t'], 'args': r['args'],
                     'tag': dict(_pairs(r['args'][1:]))['tag']}))
+            elif tags and tags[0] in ex.muted_tags and not mult.get(tags[0]):
+                bad.append(('muted-player-sent-traffic',
+                            {'t': r['t'], 'tag': tags[0], 'args': r['args']}))
             elif tags and tags[0] in ex.rest_tags:
                 bad.append(('rest-sent-traffic', {'t': r['t'], 'tag': tags[0],
                                                   'args': r['args']}))
@@ -855,6 +1241,11 @@ def compare(ex, cap, acc, mon, offgrid=False):
             bad.append(('total-duration', {'got': cap.elapsed,
                                            'expected': ex.total}))
     return bad
+
+
+class _NoCount:
+    def count(self, *a, **k):
+        pass
 
 
 def mon_name(mon):
